@@ -563,13 +563,18 @@ func nativeReplay(path string) (bool, string) {
 		return false, err.Error()
 	}
 	defer os.RemoveAll(tmp)
+	for _, f := range excludedHarness {
+		delete(ov, f)
+	}
 	repl := map[string]string{}
+	realToVirt := map[string]string{}
 	i := 0
 	for virt, content := range ov {
-		real := filepath.Join(tmp, fmt.Sprintf("f%d.go", i))
+		real := filepath.Join(tmp, fmt.Sprintf("f%d_%s", i, filepath.Base(virt)))
 		i++
 		os.WriteFile(real, content, 0o644)
 		repl[virt] = real
+		realToVirt[filepath.Base(real)] = virt
 	}
 	// generated test driver
 	pkgName, err := packageName(filepath.Join(repoDir, rf.Pkg))
@@ -587,9 +592,12 @@ func TestVerifReplay(t *testing.T) {
 	dp := filepath.Join(tmp, "driver_test.go")
 	os.WriteFile(dp, []byte(drv), 0o644)
 	repl[filepath.Join(repoDir, rf.Pkg, "zz_verif_driver_test.go")] = dp
-	ovj, _ := json.Marshal(map[string]interface{}{"Replace": repl})
 	ovp := filepath.Join(tmp, "overlay.json")
-	os.WriteFile(ovp, ovj, 0o644)
+	writeOverlay := func() {
+		ovj, _ := json.Marshal(map[string]interface{}{"Replace": repl})
+		os.WriteFile(ovp, ovj, 0o644)
+	}
+	writeOverlay()
 	tries := 1
 	if strings.Contains(string(b), "maporder") {
 		tries = 6
@@ -606,6 +614,25 @@ func TestVerifReplay(t *testing.T) {
 		cmd.Dir = repoDir
 		cmd.Env = append(os.Environ(), "GOFLAGS=-mod=mod", "GOPROXY=off", "GOSUMDB=off", "GOTOOLCHAIN=local", "VERIF_REPLAY="+path)
 		out, _ = cmd.CombinedOutput()
+		if strings.Contains(string(out), "[build failed]") {
+			// harness files that no longer compile against this tree are dropped (their jobs are
+			// inconclusive anyway); the harness being replayed may still build
+			dropped := false
+			re := regexp.MustCompile(`(f[0-9]+_zz_verif_[A-Za-z0-9_]+\.go):`)
+			for _, m := range re.FindAllStringSubmatch(string(out), -1) {
+				if virt, ok := realToVirt[m[1]]; ok && !strings.HasSuffix(virt, "zz_verif_rt.go") {
+					if _, still := repl[virt]; still {
+						delete(repl, virt)
+						dropped = true
+					}
+				}
+			}
+			if dropped && k < tries+2 {
+				writeOverlay()
+				tries++
+				continue
+			}
+		}
 		if race && strings.Contains(string(out), "WARNING: DATA RACE") {
 			return true, string(out)
 		}
